@@ -100,6 +100,23 @@ func observerBoundary(r *Rng) []c12Case {
 		g.op("retry", 31*sec, 10)
 		g.op("retry", 36*sec, 10)
 	})
+	// one batch outlasts the observer's process time limit (20 s): the runner returns the results of the batches that
+	// completed, with a nil error - they are routed like any others (staged / recorded / retried), the stalled batch
+	// contributes nothing
+	for _, k := range []int{kLog, kRetry, kRecFinal, kCondFinal} {
+		k := k
+		add("one-batch-outlasts-the-process-limit-"+kindNames[k], 8, func(g *gen) {
+			ps := g.mixed(1, 10, 5)
+			// the second batch never answers in time: its check ends with the cancelled context, an error for the whole
+			// batch (script mode 1), at the process limit
+			ps = append(ps, g.pl(11, 5, 1, kit.Spec{Mode: 1}), g.pl(12, 5, 1), g.pl(13, 5, 1, okI), g.pl(14, 5, 1, retry(0)))
+			for i := 10; i < len(ps); i++ {
+				ps[i].Lat = 45*sec + int64(i)
+			}
+			g.proc(k, 0, ps...)
+			g.op("retry", 60*sec, 100)
+		})
+	}
 	for k := kLog; k <= kSample; k++ {
 		k := k
 		add("routing-"+kindNames[k], 4, func(g *gen) {
